@@ -122,13 +122,21 @@ func (k *Keyring) RemoveKey(key []byte) error {
 	k.l.Lock()
 	defer k.l.Unlock()
 
+	if len(k.keys) == 0 {
+		return nil
+	}
 	if bytes.Equal(key, k.keys[0]) {
 		return fmt.Errorf("removing the primary key is not allowed")
 	}
 	for i, installedKey := range k.keys {
 		if bytes.Equal(key, installedKey) {
-			keys := append(k.keys[:i], k.keys[i+1:]...)
+			// Build the shortened list in fresh storage: the current
+			// slice may have been handed out by GetKeys.
+			keys := make([][]byte, 0, len(k.keys)-1)
+			keys = append(keys, k.keys[:i]...)
+			keys = append(keys, k.keys[i+1:]...)
 			k.installKeysLocked(keys, k.keys[0])
+			break
 		}
 	}
 	return nil
